@@ -532,10 +532,15 @@ def remap_by_types(
             assert call_method is not None
 
             # Call it. We can only deal with a single argument here...
-            if len(call_node.args) == 0:
+            if len(call_node.args) + len(call_node.keywords) == 0:
                 r = call_method()
-            elif len(call_node.args) == 1:
+            elif len(call_node.args) == 1 and len(call_node.keywords) == 0:
                 r = call_method(call_node.args[0], known_types=self._found_types)
+            elif len(call_node.args) == 0 and len(call_node.keywords) == 1:
+                kw = call_node.keywords[0]
+                if kw.arg is None:
+                    return None
+                r = call_method(known_types=self._found_types, **{kw.arg: kw.value})
             else:
                 return None
 
@@ -682,7 +687,11 @@ def remap_by_types(
 
                 # if the static type check worked, we might be able to use this answer.
                 if return_annotation is not None:
-                    has_lambda_arg = any(isinstance(a, ast.Lambda) for a in default_args_node.args)
+                    has_lambda_arg = any(
+                        isinstance(a, ast.Lambda)
+                        for a in default_args_node.args
+                        + [kw.value for kw in default_args_node.keywords]
+                    )
                     return_results.append(
                         _MethodTypeReturnInfo(
                             node=default_args_node,
